@@ -8,7 +8,7 @@ import re
 from ..ccfg import get_ccfg
 from ..cfacts import CREL, get_cfacts
 from ..core import AnalysisError, rule
-from ..cexpr import int_value
+from ..cexpr import int_value, strip
 from ..csym import feasible_paths
 
 STORES = {"PyDict_SetItem", "call_notifiers", "->post_setattr",
@@ -227,7 +227,7 @@ def _role_ok(text, V, orig, bit, traitd, atoms_true):
     return False
 
 
-@rule("C02.prefilter", ["C02", "C01"],
+@rule("C02.prefilter", ["C02", "C01", "C08", "C12"],
       "setattr_trait/setattr_event/getattr_trait: what is stored, what is "
       "compared for identity and what is passed to the notifiers as old/new")
 def prefilter(ctx, res):
@@ -495,7 +495,7 @@ def prefilter(ctx, res):
     # ---------------- getattr_trait (first read of a default) ---------------
     fname = default_materialiser(get_cfacts(ctx))
     paths, facts, g = paths_of(ctx, fname)
-    n = 0
+    n = silent = 0
     for p in paths:
         dv = [it for it in p.trace if it[0] == "call"
               and it[1] == "default_value_for"]
@@ -519,7 +519,34 @@ def prefilter(ctx, res):
                        "a default is returned without being stored in the "
                        "instance dict (it would be recomputed on each read)",
                        _plines(p))
-    res.instance(fname, facts.loc(facts.func(fname)), notifying_paths=n)
+            # silence has exactly two reasons: the caller's gate parameter
+            # was false, or there is no notifier at either level
+            if not any(it[0] == "call" and it[1] == "call_notifiers"
+                       for it in p.trace):
+                gates = [q.name for q in facts.params(fname)
+                         if (q.type or "").strip() == "int"]
+                atoms = [(it[1], it[2]) for it in p.trace if it[0] == "atom"]
+                why = [t for t, v in atoms
+                       if (t in gates and not v)
+                       or ("->notifiers" in t and (
+                           (t.startswith("(0 != ") and not v)
+                           or (t.startswith("(0 == ") and v)
+                           or ("PyList_GET_SIZE" in t and not v)))]
+                silent += 1
+                res.oblige(bool(why), f"{fname}:silent-reason",
+                           f"{CREL}:{p.lines[-1]}",
+                           f"a path of {fname} stores and returns a new "
+                           f"default without announcing (Uninitialized -> "
+                           f"default) although the caller asked for "
+                           f"notification and notifiers may be present; the "
+                           f"path's conditions: "
+                           f"{[(_abbr(t), v) for t, v in atoms[-4:]]} - the "
+                           f"observer maintainers rely on this event to "
+                           f"hook a default value", _plines(p))
+    res.instance(fname, facts.loc(facts.func(fname)), notifying_paths=n,
+                 silent_paths=silent)
+    if silent == 0:
+        raise AnalysisError(f"{fname}: no silent path recognised")
     res.floor(4)
 
 
@@ -798,3 +825,105 @@ def fresh_oracle(ctx, facts):
             return returns_fresh(h, depth)
         return is_fresh
     return ctx.memo("fresh-oracle", compute)
+
+
+# ---------------------------------------------------------------------------
+# C02.notifier-role: a setattr handler gets two traits: the one the attribute
+# was accessed through (first parameter; observers and static handlers of
+# (obj, name) live on it) and the one that validates / stores after
+# delegation has been resolved (second parameter).  The trait-level notifier
+# list announced to must be the first one's on every branch.
+
+@rule("C02.notifier-role", ["C02", "C08", "C11"],
+      "every setattr handler takes the trait-level notifier list from the "
+      "trait the attribute was accessed through (its first parameter), never "
+      "from the resolved delegation target")
+def notifier_role(ctx, res):
+    facts = get_cfacts(ctx)
+    handlers = sorted({f for f in facts.table("setattr_handlers") if f})
+    n = 0
+    for fname in handlers:
+        if not facts.has_func(fname):
+            raise AnalysisError(f"setattr handler {fname} not defined")
+        ps = facts.params(fname)
+        tparams = [p.name for p in ps if "trait_object" in (p.type or "")
+                   and "has_traits" not in (p.type or "")]
+        if len(tparams) < 2:
+            continue
+        fn = facts.func(fname)
+        reads = [x for x in fn.walk() if x.kind == "MemberExpr"
+                 and x.name == "notifiers" and x.ch
+                 and strip(x.ch[0]).kind == "DeclRefExpr"
+                 and strip(x.ch[0]).ref in tparams]
+        for x in reads:
+            n += 1
+            who = strip(x.ch[0]).ref
+            key = f"{fname}:{who}->notifiers"
+            res.instance(key, facts.loc(x))
+            res.oblige(who == tparams[0], key, facts.loc(x),
+                       f"{fname} announces to `{who}->notifiers`: observers "
+                       f"of (obj, name) are attached to `{tparams[0]}`, the "
+                       f"trait the attribute was accessed through; for a "
+                       f"delegated or prototyped attribute `{who}` is the "
+                       f"target object's trait, so the change is not "
+                       f"reported (or is reported to the wrong observers)")
+    res.floor(3)
+
+
+# ---------------------------------------------------------------------------
+# C02.exact-type-identity: the numeric conversion helpers behind Int / Float /
+# Complex / Range (`as_integer`, `validate_float`, `validate_complex_number`)
+# hand back *the argument itself* when it already has the exact target type.
+# The setters decide "changed" by identity first; a fresh copy of an equal
+# float makes every re-assignment of the same NaN (or of any value under
+# identity comparison) a change.  Structural part: every path that returns a
+# newly created object has failed the exact-type test of the argument, and a
+# path returning the argument exists.
+
+@rule("C02.exact-type-identity", ["C02", "C03"],
+      "a C numeric conversion helper creates a new object only on paths "
+      "where the exact-type test of its argument failed; an argument of the "
+      "exact type is returned as the same object")
+def exact_type_identity(ctx, res):
+    from ..csym import cached_paths
+    facts = get_cfacts(ctx)
+    n = 0
+    for fname in facts.defined_functions():
+        ps = facts.params(fname)
+        t = facts.func(fname).type or ""
+        if len(ps) != 1 or "PyObject *" not in (ps[0].type or "") \
+                or "PyObject *" not in t.split("(")[0]:
+            continue
+        par = ps[0].name
+        paths = cached_paths(ctx, facts, fname)
+        if paths is None:
+            continue
+        rets = [p for p in paths if p.outcome[0] == "RETURN"]
+        conv = [p for p in rets
+                if re.match(r"Py(Float_From|Long_From|Number_Long|Number_Float"
+                            r"|Complex_From)", p.outcome[1])
+                and par in p.outcome[1]]
+        if not conv:
+            continue
+        n += 1
+        res.instance(fname, facts.loc(facts.func(fname)),
+                     converting_paths=len(conv))
+        exact = re.compile(r"Py_IS_TYPE\(%s, &Py\w+_Type\)" % re.escape(par))
+        same = [p for p in rets if p.outcome[1] == par
+                and any(it[0] == "atom" and exact.fullmatch(it[1]) and it[2]
+                        for it in p.trace)]
+        res.oblige(bool(same), f"{fname}:exact-returns-argument",
+                   facts.loc(facts.func(fname)),
+                   f"{fname} has no path that returns `{par}` itself after "
+                   f"the exact-type test succeeded: every assignment stores "
+                   f"a copy, so re-assigning the same object is seen as a "
+                   f"change under identity comparison (and always for NaN)")
+        for p in conv:
+            failed = any(it[0] == "atom" and exact.fullmatch(it[1])
+                         and not it[2] for it in p.trace)
+            res.oblige(failed, f"{fname}:copy-only-after-exact-test-failed",
+                       f"{CREL}:{p.lines[-1]}",
+                       f"{fname} returns the new object "
+                       f"`{p.outcome[1][:60]}` on a path that did not test "
+                       f"(and fail) the exact type of `{par}`", _plines(p))
+    res.floor(3)
